@@ -321,6 +321,18 @@ def run(check: Check) -> None:
         rig.run_sym(check, "formula.state", fn, claims, pre=pre_d, replay=rep, timeout_ms=tmo, case_id=f"formula state {call}",
                     sample=f"model_matrix('0 + {call}') then spec replay: a training row and a fresh row")
 
+    # ---------------------------------------------------------------- floating point (ground; a real-valued term cannot see rounding):
+    # "any magnitude" includes data whose common offset dwarfs its spread, and tiny / huge spreads
+    for name, vec in (("offset 1e8", [1e8 + k for k in range(5)]), ("offset 3e9, spread 0.5", [3e9 + 0.5 * k for k in range(6)]), ("offset 1.7e9 (epoch seconds)", [1.7e9 + 3.0 * k * k for k in range(10)]),
+                      ("offset -4e7", [-4e7 + 2.5 * k for k in range(7)]), ("spread 1e-6", [1.0 + 1e-6 * k for k in range(5)]), ("magnitude 1e12", [1e12 * (k + 1) for k in range(5)]), ("magnitude 1e-9", [1e-9 * (k * k + 1) for k in range(6)])):
+        for ddof in (1, 0):
+            p = {"kind": "c13_scale_float", "x": vec, "ddof": ddof}
+            bad = replays.run(p)
+            check.case(f"scale float {name} ddof={ddof}")
+            check.obligation("scale.float/ground", "refuted" if bad else "ground")
+            if bad:
+                check.violation(f"scale_float(ddof={ddof})::{bad.split(':', 1)[0]}", bad, p)
+
     # ---------------------------------------------------------------- elementwise built-ins
     expected = {"log": "LOG", "log2": "LOG2", "log10": "LOG10", "exp": "EXP", "exp2": "EXP2", "exp10": "POW10"}
     for name, sym in expected.items():
